@@ -250,11 +250,60 @@ def inline_local_closures(fn, counter):
             init = s["init"]
             while init.get("k") == "blk" and not init["b"]["stmts"] and init["b"]["tail"] is not None:
                 init = init["b"]["tail"]
+            if init.get("k") == "path" and isinstance(init.get("def"), str) and "::" in init["def"]:
+                # `let f = f32::tanh; .. f(a) ..`  ->  `.. a.tanh() ..`   (a function item bound to a local and only ever called)
+                hid = s["pat"]["hid"]
+                uses = [x for x in _walk(fn["body"]) if x.get("k") == "local" and x.get("hid") == hid]
+                callsites = [x for x in _walk(fn["body"]) if x.get("k") == "call" and isinstance(x.get("f"), dict) and x["f"].get("k") == "local" and x["f"].get("hid") == hid]
+                if uses and len(uses) == len(callsites):
+                    d = init["def"]
+                    for x in callsites:
+                        if any(m_ in d for m_ in ("<impl f32>::", "<impl f64>::", "<impl usize>::")) and x["args"]:
+                            a_ = x["args"]
+                            x.pop("f", None)
+                            x.update({"k": "mcall", "name": d.rsplit("::", 1)[-1], "callee": d, "recv": a_[0], "args": a_[1:]})
+                        else:
+                            x["f"] = copy.deepcopy(init)
+                            x["callee"] = d
+                    b["stmts"] = [t for t in b["stmts"] if t is not s]
+                    n += 1
+                continue
             if init.get("k") != "closure":
                 continue
             hid = s["pat"]["hid"]
             uses = [x for x in _walk(fn["body"]) if x.get("k") == "local" and x.get("hid") == hid]
             callsites = [x for x in _walk(fn["body"]) if x.get("k") == "call" and isinstance(x.get("f"), dict) and x["f"].get("k") == "local" and x["f"].get("hid") == hid]
+            if uses and len(uses) != len(callsites) and not any(y.get("k") in ("assign", "assignop") for y in _walk(init["body"])):
+                # the closure handed on by name (`.map(scalar)`): the name stands for the closure expression itself
+                called = {id(x["f"]) for x in callsites}
+
+                def put(x):
+                    if isinstance(x, list):
+                        return [put(v) for v in x]
+                    if not isinstance(x, dict):
+                        return x
+                    if x.get("k") == "local" and x.get("hid") == hid and id(x) not in called:
+                        counter[0] += 1
+                        cp = copy.deepcopy(init)
+                        off = _inl.STRIDE * (4000 + counter[0])
+                        bound = {y["hid"] for y in _walk(cp) if y.get("k") == "bind" and isinstance(y.get("hid"), int)}
+                        for y in _walk(cp):
+                            if y.get("k") in ("bind", "local") and y.get("hid") in bound:
+                                y["hid"] += off
+                        return cp
+                    for k_, v in list(x.items()):
+                        if isinstance(v, (dict, list)) and not (x is s and k_ == "pat"):
+                            x[k_] = put(v)
+                    return x
+                fn["body"] = put(fn["body"])
+                uses = [x for x in _walk(fn["body"]) if x.get("k") == "local" and x.get("hid") == hid]
+                callsites = [x for x in _walk(fn["body"]) if x.get("k") == "call" and isinstance(x.get("f"), dict) and x["f"].get("k") == "local" and x["f"].get("hid") == hid]
+                if not uses:
+                    for b2 in _walk(fn["body"]):
+                        if b2.get("k") == "block":
+                            b2["stmts"] = [t for t in b2["stmts"] if t is not s]
+                    n += 1
+                    continue
             if not uses or len(uses) != len(callsites):
                 continue
             if any(y.get("k") == "ret" for y in _walk(init["body"])):
@@ -829,6 +878,7 @@ def while_to_for(fn, types):
 
 
 _UW = [0]
+_TYPES = [None]
 
 
 def option_combinators(fn):
@@ -847,7 +897,82 @@ def option_combinators(fn):
         for k_, v in list(x.items()):
             if isinstance(v, (dict, list)):
                 x[k_] = rewrite(v)
-        if x.get("k") != "mcall" or not str(x.get("callee", "")).startswith(("std::option::Option::<T>::", "core::option::Option::<T>::")):
+        OPT = ("std::option::Option::<T>::", "core::option::Option::<T>::")
+        # `if let P = opt.as_mut()` / `match opt.as_ref() {..}`  ->  matching on `&mut opt` / `&opt` (default binding modes: same bindings)
+        if x.get("k") in ("letx", "match"):
+            key = "init" if x["k"] == "letx" else "scrut"
+            i0 = _unblk(x.get(key))
+            if (i0 is not None and i0.get("k") == "mcall" and str(i0.get("callee", "")).startswith(OPT) and i0["name"] in ("as_mut", "as_ref")
+                    and not i0["args"] and _pure_place(i0["recv"])):
+                x[key] = {"k": "ref", "mut": i0["name"] == "as_mut", "x": i0["recv"], "line": i0.get("line"), "from_option_combinator": i0["name"]}
+                n += 1
+            return x
+        # `c.then(|| e)` / `c.then_some(v)`  ->  `if c { Some(e) } else { None }`
+        if x.get("k") == "mcall" and str(x.get("callee", "")).endswith(("bool>::then", "bool>::then_some")) and len(x["args"]) == 1:
+            a0 = _unblk(x["args"][0])
+            val = None
+            if x["name"] == "then" and a0 is not None and a0.get("k") == "closure" and not a0.get("params") and not any(y.get("k") == "ret" for y in _walk(a0["body"])):
+                val = a0["body"]
+            elif x["name"] == "then_some" and a0 is not None and a0.get("k") in ("lit", "path", "local"):
+                val = x["args"][0]
+            if val is not None:
+                line = x.get("line")
+                some_v = {"k": "call", "callee": "std::prelude::v1::Some", "f": {"k": "path", "def": "std::prelude::v1::Some", "line": line}, "args": [val], "line": line}
+                none_v = {"k": "path", "def": "std::prelude::v1::None", "line": line}
+                if "t" in x:
+                    some_v["t"] = x["t"]
+                    none_v["t"] = x["t"]
+                m = {"k": "if", "c": x["recv"], "th": {"k": "blk", "b": {"k": "block", "stmts": [], "tail": some_v}, "line": line},
+                     "el": {"k": "blk", "b": {"k": "block", "stmts": [], "tail": none_v}, "line": line}, "line": line, "from_option_combinator": x["name"]}
+                for key in ("t", "ta", "id"):
+                    if key in x:
+                        m[key] = x[key]
+                n += 1
+                return m
+            return x
+        # `v.extend_from_slice(&w)`  ->  `v.extend(w.clone())`   (w a whole local vector; definition of extend_from_slice for T: Clone)
+        if x.get("k") == "mcall" and x.get("name") == "extend_from_slice" and len(x["args"]) == 1 and str(x.get("callee", "")).startswith("std::vec::Vec::<T, A>::"):
+            a0 = _unblk(x["args"][0])
+            if a0 is not None and a0.get("k") == "ref" and not a0.get("mut") and _unblk(a0["x"]) is not None and _unblk(a0["x"]).get("k") == "local":
+                w = _unblk(a0["x"])
+                tyi = w.get("t")
+                if tyi is not None and _TYPES[0] and tyi < len(_TYPES[0]) and _TYPES[0][tyi].startswith("std::vec::Vec<"):
+                    line = x.get("line")
+                    cl = {"k": "mcall", "name": "clone", "callee": "std::clone::Clone::clone", "recv": w, "args": [], "line": line, "t": tyi}
+                    n += 1
+                    return {**x, "name": "extend", "callee": "std::iter::Extend::extend", "args": [cl], "from_option_combinator": "extend_from_slice"}
+            return x
+        # `v.extend(opt.iter().cloned())` / `v.extend(opt.clone())`  ->  `if let Some(e) = &opt { v.push(e.clone()) }`
+        if x.get("k") == "mcall" and x.get("name") == "extend" and str(x.get("callee", "")).startswith("std::vec::Vec::<T, A>::") is False and False:
+            pass
+        if x.get("k") == "mcall" and x.get("name") == "extend" and len(x["args"]) == 1 and str(x.get("callee", "")).endswith("::extend"):
+            a0 = _unblk(x["args"][0])
+            src = None
+            if a0 is not None and a0.get("k") == "mcall" and a0["name"] in ("cloned", "copied") and not a0["args"]:
+                i0 = _unblk(a0["recv"])
+                if i0 is not None and i0.get("k") == "mcall" and i0["name"] == "iter" and str(i0.get("callee", "")).startswith(OPT) and _pure_place(i0["recv"]):
+                    src = i0["recv"]
+            elif a0 is not None and a0.get("k") == "mcall" and a0["name"] == "clone" and not a0["args"] and _pure_place(a0["recv"]):
+                r0 = _unblk(a0["recv"])
+                while r0 is not None and r0.get("k") == "ref":
+                    r0 = _unblk(r0["x"])
+                tyi = r0.get("t") if r0 is not None else None
+                if tyi is not None and _TYPES[0] and tyi < len(_TYPES[0]) and _TYPES[0][tyi].lstrip("&").startswith("std::option::Option<"):
+                    src = a0["recv"]
+            if src is not None and _pure_place(x["recv"]):
+                _UW[0] += 1
+                vh = 9700000 + _UW[0]
+                line = x.get("line")
+                nm = "_ex%d" % _UW[0]
+                vb = {"k": "bind", "name": nm, "hid": vh, "mode": "BindingMode(No, Not)", "t": None}
+                elem = {"k": "mcall", "name": "clone", "callee": "std::clone::Clone::clone", "recv": {"k": "local", "name": nm, "hid": vh, "line": line}, "args": [], "line": line}
+                push = {"k": "mcall", "name": "push", "callee": "std::vec::Vec::<T, A>::push", "recv": x["recv"], "args": [elem], "line": line}
+                n += 1
+                return {"k": "if", "c": {"k": "letx", "pat": {"k": "tstruct", "path": "std::prelude::v1::Some", "ps": [vb]},
+                                         "init": {"k": "ref", "mut": False, "x": src, "line": line}, "line": line},
+                        "th": {"k": "blk", "b": {"k": "block", "stmts": [push], "tail": None}, "line": line}, "el": None, "line": line, "from_option_combinator": "extend"}
+            return x
+        if x.get("k") != "mcall" or not str(x.get("callee", "")).startswith(OPT):
             return x
         name = x["name"]
         args = x["args"]
@@ -990,6 +1115,19 @@ def move_aliases(fn):
     top = fn.get("body")
     while isinstance(top, dict) and top.get("k") == "blk":
         top = top["b"]
+    bind_mode = {}
+    for x in list(_walk(fn.get("params") or [])) + list(_walk(fn.get("body"))):
+        if x.get("k") == "bind" and isinstance(x.get("hid"), int):
+            bind_mode[x["hid"]] = x.get("mode") if x["hid"] not in bind_mode or bind_mode[x["hid"]] == x.get("mode") else "conflict"
+    # the body block of a closure plays the same role for the closure's parameters
+    cl_params = {}
+    for x in _walk(fn.get("body")):
+        if x.get("k") == "closure":
+            cb = x.get("body")
+            while isinstance(cb, dict) and cb.get("k") == "blk" and cb.get("lbl") is None:
+                cb = cb["b"]
+            if isinstance(cb, dict) and cb.get("k") == "block":
+                cl_params[id(cb)] = {q["hid"] for p_ in x.get("params") or [] for q in _walk(p_) if q.get("k") == "bind"}
     for b in list(_walk(fn.get("body"))):
         if b.get("k") != "block":
             continue
@@ -1001,7 +1139,20 @@ def move_aliases(fn):
                     and "Ref" not in str(s["pat"].get("mode")) and s.get("from_alias") is None):
                 src = init["hid"]
                 later = b["stmts"][i + 1:] + ([b["tail"]] if b.get("tail") is not None else [])
-                if not any(_mentions(x, src) for x in later) and src != s["pat"]["hid"] and (_declared_in(b["stmts"][:i], src) or (b is top and src in params)):
+                imm = (src in bind_mode and str(bind_mode[src]).endswith("Not)") and str(s["pat"].get("mode")).endswith("No, Not)")
+                       and str(bind_mode[src]).startswith("BindingMode(No"))
+                if imm and src != s["pat"]["hid"]:
+                    # both names are immutable bindings: the new one is the old value under another name, whatever happens later
+                    dst = s["pat"]["hid"]
+                    for x in later:
+                        for y in _walk(x):
+                            if y.get("k") == "local" and y.get("hid") == dst:
+                                y["hid"] = src
+                                y["name"] = init["name"]
+                    del b["stmts"][i]
+                    n += 1
+                    continue
+                if not any(_mentions(x, src) for x in later) and src != s["pat"]["hid"] and (_declared_in(b["stmts"][:i], src) or (b is top and src in params) or src in cl_params.get(id(b), ())):
                     dst = s["pat"]["hid"]
                     for x in later:
                         for y in _walk(x):
@@ -1626,6 +1777,698 @@ def option_case_of_case(fn):
     return n
 
 
+def _is_unit(n):
+    n0 = n
+    while n0 is not None and n0.get("k") == "blk" and n0.get("lbl") is None and not n0["b"]["stmts"]:
+        if n0["b"]["tail"] is None:
+            return True
+        n0 = n0["b"]["tail"]
+    return n0 is not None and n0.get("k") == "tup" and not n0["xs"]
+
+
+def _subsumes(p, q):
+    """does pattern p match every value pattern q matches (syntactic, conservative)"""
+    while p is not None and p.get("k") in ("ref", "deref"):
+        p = p["p"]
+    while q is not None and q.get("k") in ("ref", "deref"):
+        q = q["p"]
+    if p is None or q is None:
+        return False
+    if p.get("k") == "wild" or (p.get("k") == "bind" and not p.get("sub")):
+        return True
+    if p.get("k") == "tstruct" and q.get("k") == "tstruct" and p["path"] == q["path"] and len(p["ps"]) == len(q["ps"]):
+        return all(_subsumes(a, b) for a, b in zip(p["ps"], q["ps"]))
+    if p.get("k") == "ppath" and q.get("k") == "ppath":
+        return p["path"] == q["path"]
+    if p.get("k") == "tuple" and q.get("k") == "tuple" and len(p["ps"]) == len(q["ps"]):
+        return all(_subsumes(a, b) for a, b in zip(p["ps"], q["ps"]))
+    return False
+
+
+def _disjoint(p, q):
+    """can no value match both p and q (syntactic, conservative)"""
+    while p is not None and p.get("k") in ("ref", "deref"):
+        p = p["p"]
+    while q is not None and q.get("k") in ("ref", "deref"):
+        q = q["p"]
+    if p is None or q is None:
+        return False
+    kp, kq = p.get("k"), q.get("k")
+    if kp in ("tstruct", "ppath") and kq in ("tstruct", "ppath"):
+        if p["path"] != q["path"]:
+            return True
+        if kp == kq == "tstruct" and len(p["ps"]) == len(q["ps"]):
+            return any(_disjoint(a, b) for a, b in zip(p["ps"], q["ps"]))
+        return False
+    if kp == kq == "tuple" and len(p["ps"]) == len(q["ps"]):
+        return any(_disjoint(a, b) for a, b in zip(p["ps"], q["ps"]))
+    if kp == kq == "plit":
+        return str(p.get("v")) != str(q.get("v"))
+    return False
+
+
+def match_guards(fn):
+    """D22  arm guards of a `match` on a side-effect free place are written as nested conditionals:
+        match x { P if g => A, rest.. }   ->   match x { P => if g { A } else { match x { rest'.. } }, rest.. }
+    where rest' are the later arms that can still match a value of shape P (when the first of them matches every such value and binds nothing,
+    the inner match is just its body); arms made unreachable by an earlier unguarded arm are dropped; a match left with
+    `Some(p) => B, _ => ()` in unit position becomes `if let Some(p) = x { B }`.  First-match semantics are preserved exactly."""
+    import copy
+    n = 0
+
+    def size(x):
+        return sum(1 for _ in _walk(x))
+
+    def lower(scrut, arms, line, known=None):
+        """-> expression equivalent to `match scrut { arms }` for values matching pattern `known` (or any value)"""
+        nonlocal n
+        if known is not None:
+            arms = [a for a in arms if not _disjoint(a["pat"], known)]
+            if arms and arms[0].get("guard") is None and _subsumes(arms[0]["pat"], known) and not _binds(arms[0]["pat"]):
+                return arms[0]["body"]
+        out = []
+        for i, a in enumerate(arms):
+            if any(o.get("guard") is None and _subsumes(o["pat"], a["pat"]) for o in out):
+                continue
+            if a.get("guard") is None:
+                out.append(a)
+                continue
+            rest = copy.deepcopy(arms[i + 1:])
+            els = lower(scrut, rest, line, a["pat"]) if rest else {"k": "tup", "xs": [], "line": line}
+            body = a["body"] if a["body"].get("k") == "blk" else {"k": "blk", "b": {"k": "block", "stmts": [], "tail": a["body"]}, "line": a["body"].get("line")}
+            if _is_unit(els):
+                els = None
+            elif els.get("k") not in ("blk", "if"):
+                els = {"k": "blk", "b": {"k": "block", "stmts": [], "tail": els}, "line": line}
+            iff = {"k": "if", "c": a["guard"], "th": body, "el": els, "line": a.get("line", line), "from_guard": True}
+            if "t" in a["body"]:
+                iff["t"] = a["body"]["t"]
+            out.append({**a, "guard": None, "body": iff})
+            n += 1
+        m = {"k": "match", "scrut": copy.deepcopy(scrut) if known is not None else scrut, "arms": out, "line": line}
+        return single(m)
+
+    def single(x):
+        nonlocal n
+        if x.get("k") == "match" and len(x["arms"]) == 1 and x["arms"][0].get("guard") is None and not _refutable(x["arms"][0]["pat"]) and x.get("src") in (None, "Normal") and not x.get("mac"):
+            # `match e { p => body }` with an irrefutable p  ->  `{ let p = e; body }`
+            a = x["arms"][0]
+            line = x.get("line")
+            stmts = [] if a["pat"].get("k") == "wild" and _pure_place(x["scrut"]) else [{"k": "let", "pat": a["pat"], "init": x["scrut"], "els": None, "line": line}]
+            out = {"k": "blk", "b": {"k": "block", "stmts": stmts, "tail": a["body"]}, "line": line, "from_guard": True}
+            for key in ("t", "ta"):
+                if key in x:
+                    out[key] = x[key]
+            n += 1
+            return out
+        return x
+
+    def rewrite(x):
+        nonlocal n
+        if isinstance(x, list):
+            return [rewrite(v) for v in x]
+        if not isinstance(x, dict):
+            return x
+        for k_, v in list(x.items()):
+            if isinstance(v, (dict, list)):
+                x[k_] = rewrite(v)
+        if x.get("k") == "match" and len(x["arms"]) == 1:
+            x = single(x)
+            if x.get("k") != "match":
+                return x
+        if x.get("k") == "match" and any(a.get("guard") is not None for a in x["arms"]) and _pure_place(x["scrut"]):
+            g = [i for i, a in enumerate(x["arms"]) if a.get("guard") is not None]
+            if size({"k": "x", "arms": x["arms"][g[0] + 1:]}) <= 600:
+                m = lower(x["scrut"], x["arms"], x.get("line"))
+                for key in ("t", "id", "src"):
+                    if key in x:
+                        m[key] = x[key]
+                x = m
+                if x.get("k") != "match":
+                    return x
+                arms = x["arms"]
+                if (len(arms) == 2 and _refutable(arms[0]["pat"]) and not _binds(arms[1]["pat"]) and _is_unit(arms[1]["body"])
+                        and (arms[1]["pat"].get("k") in ("wild", "ppath")) and arms[0]["body"].get("k") in ("if", "blk")):
+                    th = arms[0]["body"]
+                    if th.get("k") != "blk":
+                        th = {"k": "blk", "b": {"k": "block", "stmts": [th], "tail": None}, "line": th.get("line")}
+                    x = {"k": "if", "c": {"k": "letx", "pat": arms[0]["pat"], "init": x["scrut"], "line": x.get("line")}, "th": th, "el": None,
+                         "line": x.get("line"), "from_guard": True}
+        return x
+    if fn.get("body") is not None:
+        fn["body"] = rewrite(fn["body"])
+    return n
+
+
+def _eq_expr(a, b):
+    """structural equality of two expressions (binding identities included; positions and type ids ignored)"""
+    if isinstance(a, dict) and isinstance(b, dict):
+        ka = {k_ for k_ in a if k_ not in ("id", "line", "t", "ta")}
+        kb = {k_ for k_ in b if k_ not in ("id", "line", "t", "ta")}
+        return ka == kb and all(_eq_expr(a[k_], b[k_]) for k_ in ka)
+    if isinstance(a, list) and isinstance(b, list):
+        return len(a) == len(b) and all(_eq_expr(x, y) for x, y in zip(a, b))
+    return a == b
+
+
+def _pure_scrutinee(n):
+    n0 = _unblk(n)
+    if n0 is None:
+        return False
+    if n0.get("k") == "tup":
+        return all(_pure_scrutinee(x) for x in n0["xs"])
+    return _pure_place(n0)
+
+
+def iflet_chain_to_match(fn):
+    """D24  `if let P1 = S { A } else if let P2 = S { B } else { C }` (the same side-effect free S, at least two tests)
+        ->  `match S { P1 => A, P2 => B, _ => C }`   (first-match semantics are exactly those of the chain)."""
+    n = 0
+
+    def chain(x):
+        """-> (scrutinee, [(pat, body)], else or None) for an if-let chain starting at x"""
+        c = _unblk(x["c"])
+        if c is None or c.get("k") != "letx" or not _pure_scrutinee(c["init"]):
+            return None
+        arms = [(c["pat"], x["th"])]
+        el = x.get("el")
+        while el is not None:
+            e0 = el
+            while e0 is not None and e0.get("k") == "blk" and e0.get("lbl") is None and not e0["b"]["stmts"] and e0["b"].get("tail") is not None:
+                e0 = e0["b"]["tail"]
+            if e0 is not None and e0.get("k") == "if":
+                c2 = _unblk(e0["c"])
+                if c2 is not None and c2.get("k") == "letx" and _eq_expr(_unblk(c2["init"]), _unblk(c["init"])):
+                    arms.append((c2["pat"], e0["th"]))
+                    el = e0.get("el")
+                    continue
+            break
+        return c["init"], arms, el
+
+    def rewrite(x):
+        nonlocal n
+        if isinstance(x, list):
+            return [rewrite(v) for v in x]
+        if not isinstance(x, dict):
+            return x
+        if x.get("k") == "if":
+            ch = chain(x)
+            if ch is not None and len(ch[1]) >= 2:
+                scr, arms, el = ch
+                line = x.get("line")
+                out = [{"pat": p_, "guard": None, "body": rewrite(b_), "line": b_.get("line")} for (p_, b_) in arms]
+                out.append({"pat": {"k": "wild"}, "guard": None, "body": rewrite(el) if el is not None else {"k": "tup", "xs": [], "line": line}, "line": line})
+                m = {"k": "match", "scrut": scr, "src": "Normal", "arms": out, "line": line, "from_iflet_chain": True}
+                for key in ("t", "ta", "id"):
+                    if key in x:
+                        m[key] = x[key]
+                n += 1
+                return m
+        for k_, v in list(x.items()):
+            if isinstance(v, (dict, list)):
+                x[k_] = rewrite(v)
+        return x
+    if fn.get("body") is not None:
+        fn["body"] = rewrite(fn["body"])
+    return n
+
+
+def _pure_expr(n, depth=0):
+    n = _unblk(n)
+    if n is None or depth > 6:
+        return False
+    k = n.get("k")
+    if k == "lit" or _pure_place(n):
+        return True
+    if k == "bin":
+        return _pure_expr(n["l"], depth + 1) and _pure_expr(n["r"], depth + 1)
+    if k == "un" and n.get("op") in ("Not", "Neg", "Deref"):
+        return _pure_expr(n["x"], depth + 1)
+    if k == "cast":
+        return _pure_expr(n["x"], depth + 1)
+    return False
+
+
+def _place_roots(n):
+    """(root hid, first field or None) of every place read in the pure expression n"""
+    out = []
+    for x in _walk(n):
+        if x.get("k") == "field":
+            b = x["b"]
+            while b is not None and b.get("k") in ("ref", "un", "blk"):
+                b = b.get("x") if b["k"] != "blk" else b["b"].get("tail")
+            if b is not None and b.get("k") == "local":
+                out.append((b["hid"], x["f"]))
+        elif x.get("k") == "local":
+            out.append((x["hid"], None))
+    return out
+
+
+def _never_written(fn, roots):
+    """no assignment to / mutable borrow of the places (root local, first field) anywhere in fn; a bare local must be an immutable binding"""
+    fields = {(h, f) for (h, f) in roots if f is not None}
+    bare = {h for (h, f) in roots if f is None} - {h for (h, f) in fields}
+    modes = {}
+    for x in list(_walk(fn.get("params") or [])) + list(_walk(fn.get("body"))):
+        if x.get("k") == "bind":
+            modes[x.get("hid")] = str(x.get("mode"))
+    for h in bare:
+        if not modes.get(h, "").endswith("Not)"):
+            return False
+    for x in _walk(fn.get("body")):
+        tgt = None
+        if x.get("k") in ("assign", "assignop"):
+            tgt = x["l"]
+        elif x.get("k") == "ref" and x.get("mut"):
+            tgt = x["x"]
+        if tgt is None:
+            continue
+        chain = []
+        t = _unblk(tgt)
+        while t is not None and t.get("k") in ("field", "index", "un", "ref", "blk"):
+            if t["k"] == "field":
+                chain.append(t["f"])
+                t = _unblk(t["b"])
+            elif t["k"] == "index":
+                chain.append("[]")
+                t = _unblk(t["b"])
+            elif t["k"] == "blk":
+                t = _unblk(t)
+                if t is not None and t.get("k") == "blk":
+                    break
+            else:
+                t = _unblk(t["x"])
+        if t is not None and t.get("k") == "local":
+            first = chain[-1] if chain else None
+            if any(h == t["hid"] and (first is None or first == f) for (h, f) in fields):
+                return False
+    return True
+
+
+def _tuple_init(fn, hid):
+    """components of `let <hid> = (e0, e1, ..)` when the binding is immutable, declared once, and every e_i is a side-effect free
+    expression over places that are never written in the function; else None"""
+    lets = [x for x in _walk(fn.get("body")) if x.get("k") == "let" and x["pat"].get("k") == "bind" and x["pat"].get("hid") == hid]
+    if len(lets) != 1 or lets[0].get("els") or not str(lets[0]["pat"].get("mode")).endswith("No, Not)"):
+        return None
+    init = _unblk(lets[0].get("init"))
+    if init is None or init.get("k") != "tup" or not init["xs"] or not all(_pure_expr(e) for e in init["xs"]):
+        return None
+    roots = [r for e in init["xs"] for r in _place_roots(e)]
+    if not _never_written(fn, roots):
+        return None
+    return init["xs"]
+
+
+def bool_match_to_if(fn):
+    """D25  a `match` on a bool or a tuple of bools whose patterns are `true` / `false` / `_` (and `|` of such) is the if-chain it abbreviates:
+        match (a, b) { (true, true) => A, (false, _) | (_, false) => B }   ->   if a && b { A } else { B }
+    (the compiler checked exhaustiveness, so the last arm needs no test).  The scrutinee is a local or a tuple expression of side-effect
+    free components; a local tuple is tested through its projections `s.0`, `s.1`."""
+    n = 0
+
+    def conj(pat, comps):
+        """pattern -> list of (component index or None, polarity) or None if not a bool pattern"""
+        while pat.get("k") in ("ref", "deref"):
+            pat = pat["p"]
+        k = pat.get("k")
+        if k == "wild":
+            return []
+        if comps is None:
+            if k == "plit" and str(pat.get("v")) in ("true", "false"):
+                return [(None, str(pat["v"]) == "true")]
+            return None
+        if k != "tuple" or len(pat["ps"]) != comps:
+            return None
+        out = []
+        for i, q in enumerate(pat["ps"]):
+            while q.get("k") in ("ref", "deref"):
+                q = q["p"]
+            if q.get("k") == "wild":
+                continue
+            if q.get("k") == "plit" and str(q.get("v")) in ("true", "false"):
+                out.append((i, str(q["v"]) == "true"))
+            else:
+                return None
+        return out
+
+    def rewrite(x):
+        nonlocal n
+        if isinstance(x, list):
+            return [rewrite(v) for v in x]
+        if not isinstance(x, dict):
+            return x
+        for k_, v in list(x.items()):
+            if isinstance(v, (dict, list)):
+                x[k_] = rewrite(v)
+        if x.get("k") != "match" or x.get("mac") or len(x["arms"]) < 2 or any(a.get("guard") is not None for a in x["arms"]):
+            return x
+        scr = _unblk(x["scrut"])
+        if scr is None:
+            return x
+        line = x.get("line")
+        if scr.get("k") == "tup" and all(_pure_place(c_) for c_ in scr["xs"]):
+            comps = len(scr["xs"])
+            comp = lambda i: copy.deepcopy(scr["xs"][i])
+        elif scr.get("k") == "local" and _tuple_init(fn, scr["hid"]) is not None:
+            # `let regime = (c1, c2);` with side-effect free components over values that never change: the components themselves are tested
+            xs = _tuple_init(fn, scr["hid"])
+            comps = len(xs)
+            comp = lambda i: copy.deepcopy(xs[i])
+        elif scr.get("k") == "local":
+            sizes = set()
+            for a in x["arms"]:
+                for q in (a["pat"]["ps"] if a["pat"].get("k") == "or" else [a["pat"]]):
+                    while q.get("k") in ("ref", "deref"):
+                        q = q["p"]
+                    if q.get("k") == "tuple":
+                        sizes.add(len(q["ps"]))
+                    elif q.get("k") == "plit":
+                        sizes.add(None)
+            if len(sizes) != 1:
+                return x
+            comps = list(sizes)[0]
+            comp = (lambda i: {"k": "field", "b": copy.deepcopy(scr), "f": str(i), "line": line}) if comps is not None else (lambda i: copy.deepcopy(scr))
+        else:
+            return x
+        conds = []
+        for a in x["arms"]:
+            alts = a["pat"]["ps"] if a["pat"].get("k") == "or" else [a["pat"]]
+            cs = [conj(q, comps) for q in alts]
+            if any(c_ is None for c_ in cs):
+                return x
+            conds.append(cs)
+
+        def term(i, pol):
+            e = comp(i) if i is not None else copy.deepcopy(scr)
+            return e if pol else {"k": "un", "op": "Not", "x": e, "line": line}
+
+        def build(cs):
+            alts = []
+            for c_ in cs:
+                if not c_:
+                    return None          # matches everything
+                e = term(*c_[0])
+                for t_ in c_[1:]:
+                    e = {"k": "bin", "op": "And", "l": e, "r": term(*t_), "line": line}
+                alts.append(e)
+            e = alts[0]
+            for a_ in alts[1:]:
+                e = {"k": "bin", "op": "Or", "l": e, "r": a_, "line": line}
+            return e
+        out = None
+        arms = list(zip(x["arms"], conds))
+        last = arms[-1][0]["body"]
+        out = last if last.get("k") == "blk" else {"k": "blk", "b": {"k": "block", "stmts": [], "tail": last} if not _is_unit_stmt(last) else {"k": "block", "stmts": [last], "tail": None}, "line": last.get("line")}
+        if _is_unit(out):
+            out = None
+        for a, cs in reversed(arms[:-1]):
+            c_ = build(cs)
+            body = a["body"]
+            th = body if body.get("k") == "blk" else {"k": "blk", "b": {"k": "block", "stmts": [], "tail": body} if not _is_unit_stmt(body) else {"k": "block", "stmts": [body], "tail": None}, "line": body.get("line")}
+            if c_ is None:
+                out = th
+                continue
+            out = {"k": "if", "c": c_, "th": th, "el": out, "line": a.get("line", line), "from_bool_match": True}
+        if out is None:
+            return x
+        for key in ("t", "ta"):
+            if key in x:
+                out[key] = x[key]
+        n += 1
+        return out
+    if fn.get("body") is not None:
+        fn["body"] = rewrite(fn["body"])
+    return n
+
+
+def _is_unit_stmt(n):
+    return n.get("k") in ("assign", "assignop")
+
+
+def _pure_elem(n):
+    """`v[i]` / `v[i][j]` with v a local (or field place) and side-effect free indices, or any other side-effect free place"""
+    n = _unblk(n)
+    if n is None:
+        return False
+    if n.get("k") == "index":
+        return _pure_elem(n["b"]) and _pure_expr(n["i"])
+    return _pure_place(n)
+
+
+def mem_replace(fn):
+    """D26a  `let p = std::mem::replace(&mut X, v);`  ->  `let p = X; X = v;`      (X a side-effect free place, v a local / literal)
+             `std::mem::swap(&mut X, &mut Y);`         ->  `let t = X; X = Y; Y = t;`
+    (the definitions of replace / swap in terms of reads and writes of the two places)."""
+    n = 0
+    for b in list(_walk(fn.get("body"))):
+        if b.get("k") != "block":
+            continue
+        out = []
+        for st in b["stmts"]:
+            init = _unblk(st.get("init")) if st.get("k") == "let" else None
+            if (init is not None and init.get("k") == "call" and init.get("callee") in ("std::mem::replace", "core::mem::replace") and len(init["args"]) == 2
+                    and st["pat"].get("k") in ("bind", "wild") and not st.get("els")):
+                a0, a1 = _unblk(init["args"][0]), _unblk(init["args"][1])
+                if a0 is not None and a0.get("k") == "ref" and a0.get("mut") and _pure_elem(a0["x"]) and a1 is not None and a1.get("k") in ("local", "lit"):
+                    line = st.get("line")
+                    if st["pat"].get("k") == "bind":
+                        out.append({**st, "init": copy.deepcopy(a0["x"])})
+                    out.append({"k": "assign", "l": a0["x"], "r": init["args"][1], "line": line, "from_mem": "replace"})
+                    n += 1
+                    continue
+            c0 = _unblk(st)
+            if (c0 is not None and c0.get("k") == "call" and c0.get("callee") in ("std::mem::swap", "core::mem::swap") and len(c0["args"]) == 2):
+                a0, a1 = _unblk(c0["args"][0]), _unblk(c0["args"][1])
+                if all(a is not None and a.get("k") == "ref" and a.get("mut") and _pure_elem(a["x"]) for a in (a0, a1)):
+                    _UW[0] += 1
+                    vh = 9700000 + _UW[0]
+                    nm = "_sw%d" % _UW[0]
+                    line = c0.get("line")
+                    t_ = _unblk(a0["x"]).get("t")
+                    out.append({"k": "let", "pat": {"k": "bind", "name": nm, "hid": vh, "mode": "BindingMode(No, Not)", "t": t_}, "init": copy.deepcopy(a0["x"]), "els": None, "line": line})
+                    out.append({"k": "assign", "l": a0["x"], "r": copy.deepcopy(a1["x"]), "line": line, "from_mem": "swap"})
+                    out.append({"k": "assign", "l": a1["x"], "r": {"k": "local", "name": nm, "hid": vh, "t": t_, "line": line}, "line": line, "from_mem": "swap"})
+                    n += 1
+                    continue
+            out.append(st)
+        b["stmts"] = out
+    return n
+
+
+def swap_sequences(fn):
+    """D26b  a run of statements that only moves the values of two elements `v[i]`, `v[j]` of one local vector through immutable temporaries and
+    ends with the two exchanged (`let t = v[i]; v[i] = v[j]; v[j] = t;` and its variants)  ->  `v.swap(i, j);`
+    Decided by executing the run on two symbolic cells (and on one cell for i == j, where it must change nothing); the temporaries must not be
+    used afterwards."""
+    n = 0
+
+    def elem(x):
+        x = _unblk(x)
+        if x is not None and x.get("k") == "index" and _unblk(x["b"]) is not None and _unblk(x["b"]).get("k") in ("local",) and _pure_expr(x["i"]):
+            return _unblk(x["b"])["hid"], x["i"], _unblk(x["b"])
+        if x is not None and x.get("k") == "index" and _unblk(x["b"]) is not None and _unblk(x["b"]).get("k") == "un" and _unblk(_unblk(x["b"])["x"]).get("k") == "local" and _pure_expr(x["i"]):
+            return _unblk(_unblk(x["b"])["x"])["hid"], x["i"], _unblk(x["b"])
+        return None
+
+    for b in list(_walk(fn.get("body"))):
+        if b.get("k") != "block":
+            continue
+        i = 0
+        while i < len(b["stmts"]):
+            done = False
+            for L in (3, 4):
+                run = b["stmts"][i:i + L]
+                if len(run) != L:
+                    continue
+                vec = None
+                idxs = []
+                temps = {}
+                ok = True
+                prog = []
+                for st in run:
+                    s0 = _unblk(st)
+                    if s0 is None:
+                        ok = False
+                        break
+                    if s0.get("k") == "let" and s0["pat"].get("k") == "bind" and not s0.get("els") and str(s0["pat"].get("mode")).endswith("No, Not)") and s0.get("init") is not None:
+                        e = elem(s0["init"])
+                        src = None
+                        if e is not None:
+                            src = ("cell", e)
+                        elif _unblk(s0["init"]).get("k") == "local" and _unblk(s0["init"])["hid"] in temps:
+                            src = ("tmp", _unblk(s0["init"])["hid"])
+                        if src is None:
+                            ok = False
+                            break
+                        temps[s0["pat"]["hid"]] = True
+                        prog.append(("let", s0["pat"]["hid"], src))
+                    elif s0.get("k") == "assign":
+                        e = elem(s0["l"])
+                        r = _unblk(s0["r"])
+                        if e is None or r is None:
+                            ok = False
+                            break
+                        if r.get("k") == "local" and r["hid"] in temps:
+                            src = ("tmp", r["hid"])
+                        elif elem(r) is not None:
+                            src = ("cell", elem(r))
+                        else:
+                            ok = False
+                            break
+                        prog.append(("set", e, src))
+                    else:
+                        ok = False
+                        break
+                if not ok:
+                    continue
+                cells = []
+                for op in prog:
+                    for item in ((op[1],) if op[0] == "set" else ()) + ((op[2][1],) if op[2][0] == "cell" else ()):
+                        if vec is None:
+                            vec = item[0]
+                        if item[0] != vec:
+                            ok = False
+                        if not any(_eq_expr(_unblk(item[1]), _unblk(c_)) for c_ in cells):
+                            cells.append(item[1])
+                if not ok or len(cells) != 2 or vec is None:
+                    continue
+                # the index expressions must not depend on the temporaries
+                if any(y.get("k") == "local" and y.get("hid") in temps for c_ in cells for y in _walk(c_)):
+                    continue
+
+                def cid(e):
+                    return 0 if _eq_expr(_unblk(e[1]), _unblk(cells[0])) else 1
+
+                def execute(merge):
+                    st_ = {0: "a", 1: "b"} if not merge else {0: "a", 1: "a"}
+                    env = {}
+                    for op in prog:
+                        val = st_[0 if merge else cid(op[2][1])] if op[2][0] == "cell" else env[op[2][1]]
+                        if op[0] == "let":
+                            env[op[1]] = val
+                        else:
+                            if merge:
+                                st_[0] = st_[1] = val
+                            else:
+                                st_[cid(op[1])] = val
+                    return st_
+                if execute(False) != {0: "b", 1: "a"} or execute(True) != {0: "a", 1: "a"}:
+                    continue
+                later = b["stmts"][i + L:] + ([b["tail"]] if b.get("tail") is not None else [])
+                if any(_mentions(x, h) for x in later for h in temps):
+                    continue
+                recv = None
+                for op in prog:
+                    if op[0] == "set":
+                        recv = op[1][2]
+                line = run[0].get("line")
+                sw = {"k": "mcall", "name": "swap", "callee": "core::slice::<impl [T]>::swap", "recv": copy.deepcopy(recv), "args": [copy.deepcopy(cells[0]), copy.deepcopy(cells[1])],
+                      "line": line, "from_swap_sequence": True}
+                b["stmts"][i:i + L] = [sw]
+                n += 1
+                done = True
+                break
+            i += 1
+    return n
+
+
+def inclusive_ranges(fn):
+    """D27  `a..=b`  ->  `a..b + 1`   (the same positions in the same order; `b + 1` cannot overflow for an index that is in range)"""
+    n = 0
+    for x in _walk(fn.get("body")):
+        if x.get("k") == "call" and str(x.get("callee", "")).endswith("RangeInclusive::<Idx>::new") and len(x.get("args") or []) == 2:
+            a, b = x["args"]
+            line = x.get("line")
+            b0 = _unblk(b)
+            if b0 is not None and b0.get("k") == "bin" and b0.get("op") == "Sub" and _unblk(b0["r"]).get("k") == "lit" and str(_unblk(b0["r"]).get("v")).replace("usize", "").rstrip("_") == "1":
+                end = b0["l"]             # `a..=n - 1`  ->  `a..n`
+            else:
+                end = {"k": "bin", "op": "Add", "l": b, "r": {"k": "lit", "v": "1", "line": line, "t": b.get("t")}, "line": line, "t": b.get("t")}
+            keep = {k_: x[k_] for k_ in ("id", "line") if k_ in x}
+            x.clear()
+            x.update({"k": "struct", "path": "std::ops::Range", "mac": "Desugaring(RangeExpr)", "fs": [["start", a], ["end", end]], **keep})
+            n += 1
+    return n
+
+
+_NEG = {"Lt": "Ge", "Ge": "Lt", "Gt": "Le", "Le": "Gt", "Eq": "Ne", "Ne": "Eq"}
+
+
+def loop_break_value(fn):
+    """D23  `let x = loop { if C { break V0; } rest.. }` with a literal V0 and a comparison C
+        ->  `let mut x = V0; while !C { rest'.. }`   where every other `break V` of this loop becomes `{ x = V; break; }`.
+    Same iterations, same exits, same final value of x."""
+    n = 0
+    for blkn in list(_walk(fn.get("body"))):
+        if blkn.get("k") != "block":
+            continue
+        for s in blkn["stmts"]:
+            if s.get("k") != "let" or s.get("els") or s["pat"].get("k") != "bind" or s.get("init") is None:
+                continue
+            lp = _unblk(s["init"])
+            if lp is None or lp.get("k") != "loop" or lp.get("src") != "Loop":
+                continue
+            bd = lp["body"]
+            bd = bd["b"] if bd.get("k") == "blk" else bd
+            if bd.get("k") != "block" or not bd["stmts"]:
+                continue
+            first = _unblk(bd["stmts"][0])
+            if first is None or first.get("k") != "if" or first.get("el") is not None:
+                continue
+            c = _unblk(first["c"])
+            if c is None or c.get("k") != "bin" or c["op"] not in _NEG:
+                continue
+            th = first["th"]
+            thb = th["b"] if th.get("k") == "blk" else None
+            items = (list(thb["stmts"]) + ([thb["tail"]] if thb.get("tail") is not None else [])) if thb else []
+            lid = lp.get("loop_id")
+            if len(items) != 1 or _unblk(items[0]).get("k") != "break" or _unblk(items[0]).get("label") != lid:
+                continue
+            v0 = _unblk(items[0]).get("v")
+            if v0 is None or _unblk(v0).get("k") != "lit":
+                continue
+            rest = bd["stmts"][1:] + ([bd["tail"]] if bd.get("tail") is not None else [])
+            hid, name, t = s["pat"]["hid"], s["pat"]["name"], s["pat"].get("t")
+            line = s.get("line")
+
+            def fix(x):
+                if isinstance(x, list):
+                    return [fix(v) for v in x]
+                if not isinstance(x, dict):
+                    return x
+                if x.get("k") == "closure":
+                    return x
+                for k_, v in list(x.items()):
+                    if isinstance(v, (dict, list)):
+                        x[k_] = fix(v)
+                if x.get("k") == "break" and x.get("label") == lid and x.get("v") is not None:
+                    asg = {"k": "assign", "l": {"k": "local", "name": name, "hid": hid, "t": t, "line": x.get("line")}, "r": x["v"], "line": x.get("line")}
+                    return {"k": "blk", "b": {"k": "block", "stmts": [asg, {"k": "break", "label": lid, "v": None, "line": x.get("line")}], "tail": None},
+                            "line": x.get("line")}
+                return x
+            rest = fix(rest)
+            cond = {**c, "op": _NEG[c["op"]]}
+            body_blk = {"k": "blk", "b": {"k": "block", "stmts": rest, "tail": None}, "line": lp.get("line")}
+            brk = {"k": "blk", "b": {"k": "block", "stmts": [{"k": "break", "label": lid, "v": None, "line": line}], "tail": None}, "line": line}
+            wl = {"k": "loop", "src": "While", "loop_id": lid, "line": lp.get("line"),
+                  "body": {"k": "blk", "b": {"k": "block", "stmts": [], "tail": {"k": "if", "c": cond, "th": body_blk, "el": brk, "line": lp.get("line")}}, "line": lp.get("line")}}
+            if "id" in lp:
+                wl["id"] = lp["id"]
+            s["init"] = v0
+            s["pat"] = {**s["pat"], "mode": "BindingMode(No, Mut)"}
+            s["_then"] = wl
+            n += 1
+        if any("_then" in s for s in blkn["stmts"] if isinstance(s, dict)):
+            out = []
+            for s in blkn["stmts"]:
+                out.append(s)
+                if isinstance(s, dict) and "_then" in s:
+                    out.append(s.pop("_then"))
+            blkn["stmts"] = out
+    return n
+
+
 _CTR = [0]
 
 
@@ -1641,7 +2484,15 @@ def run(facts):
         counts["range_for_each"] = counts.get("range_for_each", 0) + range_for_each(fn)
         counts["compound_assignments"] = counts.get("compound_assignments", 0) + compound_assignments(fn)
         counts["mut_ref_aliases"] = counts.get("mut_ref_aliases", 0) + mut_ref_aliases(fn)
+        counts["inclusive_ranges"] = counts.get("inclusive_ranges", 0) + inclusive_ranges(fn)
+        counts["mem_replace"] = counts.get("mem_replace", 0) + mem_replace(fn)
+        counts["swap_sequences"] = counts.get("swap_sequences", 0) + swap_sequences(fn)
+        counts["iflet_chains"] = counts.get("iflet_chains", 0) + iflet_chain_to_match(fn)
+        counts["match_guards"] = counts.get("match_guards", 0) + match_guards(fn)
+        counts["bool_matches"] = counts.get("bool_matches", 0) + bool_match_to_if(fn)
+        counts["loop_break_values"] = counts.get("loop_break_values", 0) + loop_break_value(fn)
         counts["while_loops"] = counts.get("while_loops", 0) + while_to_for(fn, facts["types"])
+        _TYPES[0] = facts.get("types")
         counts["option_combinators"] = counts.get("option_combinators", 0) + option_combinators(fn)
         counts["let_else"] += let_else_to_match(fn["body"])
         counts["case_of_case"] = counts.get("case_of_case", 0) + option_case_of_case(fn)
